@@ -12,10 +12,12 @@ PROPS = {
     modules=['SlacProps.C03', 'SlacProps.C03Float', 'SlacProps.C03Source'], translate=True,
     streams=[
         dict(name='evaltable', n=n(0, 0), view='result'),
-        dict(name='eval', n=n(40000, 1500000), view='result'),
-        dict(name='evalill', n=n(30000, 1000000), view='result'),
+        dict(name='eval', n=n(40000, 1500000), view='result', laws=['eval_side']),
+        dict(name='evalill', n=n(30000, 1000000), view='result', laws=['eval_side']),
+        dict(name='evalcs', n=n(15000, 500000), view='result'),
         dict(name='spine:eval', n=n(1500, 40000), view='result'),
         dict(name='wide:eval', n=n(16, 160), view='result', case_timeout=60.0),
+        dict(name='vchain:eval', n=n(16, 120), view='result', case_timeout=120.0),
         dict(name='script', n=n(20000, 500000), view='script_exec', oracle='none'),
         dict(name='cmp', n=n(40000, 1500000), oracle='none'),
         dict(name='num', n=n(40000, 1500000), oracle='none'),
@@ -31,10 +33,13 @@ PROPS = {
     modules=['SlacProps.C04', 'SlacProps.C03Source'], translate=True,
     streams=[
         dict(name='evaltable', n=n(0, 0), view='full'),
-        dict(name='eval', n=n(40000, 1500000), view='full'),
-        dict(name='evalill', n=n(30000, 1000000), view='full'),
+        dict(name='eval', n=n(40000, 1500000), view='full', laws=['eval_side']),
+        dict(name='evalill', n=n(30000, 1000000), view='full', laws=['eval_side']),
+        # a CASE-SENSITIVE host environment (the trait does not prescribe case folding): names exactly as written reach the environment, once
+        dict(name='evalcs', n=n(15000, 500000), view='full'),
         dict(name='spine:eval', n=n(1500, 40000), view='full'),
         dict(name='wide:eval', n=n(16, 160), view='full', case_timeout=60.0),
+        dict(name='vchain:eval', n=n(16, 120), view='full', case_timeout=120.0),
     ],
     rule='same trees as C03, executed through a recording Environment; the compared line is result + the sequence of variable()/call() events with argument values; '
          'non-trivial = tree has an operator/call/array node',
@@ -92,6 +97,7 @@ PROPS = {
         dict(name='spine:opt', n=n(1500, 40000), view='opt_c05', oracle='none', laws=['c05'], case_timeout=20.0),
         dict(name='chain:opt', n=n(100, 1500), view='opt_c05', oracle='none', laws=['c05'], case_timeout=30.0),
         dict(name='wide:opt', n=n(16, 80), view='opt_c05', oracle='none', laws=['c05'], case_timeout=120.0),
+        dict(name='vchain:opt', n=n(16, 80), view='opt_c05', model=False, oracle='none', laws=['c05'], case_timeout=300.0),
         dict(name='script', n=n(20000, 500000), view='script_opt', oracle='none', laws=['script_c05']),
     ],
     rule='opt/optill: random trees (depth<=4) mixing foldable all-literal sub-trees, variables in several spellings, if_then calls with 2-4 arguments, pure and impure functions of all arity kinds, folds that fail midway; '
@@ -107,6 +113,7 @@ PROPS = {
         dict(name='optill', n=n(20000, 500000), view='opt_c06', oracle='none', laws=['c06'], case_timeout=20.0),
         dict(name='spine:opt', n=n(1500, 40000), view='opt_c06', oracle='none', laws=['c06'], case_timeout=20.0),
         dict(name='chain:opt', n=n(100, 1500), view='opt_c06', oracle='none', laws=['c06'], case_timeout=30.0),
+        dict(name='vchain:opt', n=n(16, 80), view='opt_c06', model=False, oracle='none', laws=['c06'], case_timeout=300.0),
     ],
     rule='same trees as C05 through a recording Environment. Compared: status, tree, the events optimize performed, whether a foldable node is left, re-optimisation, node counts; '
          'the falsifier inspects the real result structurally (foldable nodes by the property\'s own definition) and checks purity of every recorded event against the registered functions',
@@ -120,6 +127,9 @@ PROPS = {
         dict(name='compile', n=n(60000, 2000000), view='class', oracle='none', laws=['no_crash']),
         dict(name='compiledeep', n=n(2000, 20000), view='class', oracle='none', laws=['no_crash']),
         dict(name='parse', n=n(30000, 1000000), view='class', oracle='none', laws=['no_crash']),
+        # the deep inputs again in a worker whose address space is limited to 16 MiB: a helper thread with a big stack, or a buffer sized by the
+        # nesting depth, is refused by the OS there - compile must still answer with a tree or an error
+        dict(name='lowmem:compiledeep', gen='compiledeep', n=n(1500, 20000), model=False, view='class', oracle='none', laws=['no_crash'], rlimit_as_mb=16),
     ],
     rule='every run is executed in a worker process: a dead (stack overflow, abort) or hung worker is bisected to the single killing input. '
          'scanfrag/parsekinds exhaustive small scopes; compile: random texts incl. truncations and single-character mutations of valid scripts, unbalanced delimiters, dangling operators, unterminated strings/comments, arbitrary Unicode; '
@@ -130,10 +140,11 @@ PROPS = {
     srcgen={'SrcValidate': 'SlacProps.C10Source', 'SrcEnv': 'SlacProps.C19Source'},
     modules=['SlacProps.C10', 'SlacProps.C10Tables', 'SlacProps.C10Optimize'], regen=True,
     streams=[
-        dict(name='dcall', n=n(150, 5000), view='kind', oracle='none', laws=['c10_dcall']),
+        dict(name='dcall', n=n(400, 8000), view='kind', oracle='none', laws=['c10_dcall']),
         dict(name='script', n=n(20000, 500000), view='script_chk', oracle='none', laws=['script_c10']),
         dict(name='chkvf', n=n(50000, 1500000), view='chk_exec', oracle='none', laws=['c10']),
         dict(name='spine:chkvf', n=n(1500, 40000), view='chk_exec', oracle='none', laws=['c10']),
+        dict(name='vchain:chkvf', n=n(16, 80), view='chk_exec', oracle='none', laws=['c10'], case_timeout=120.0),
         dict(name='opt', n=n(30000, 1000000), view='opt_c10', oracle='none', laws=['c10_opt']),
         dict(name='env', n=n(20000, 500000), oracle='none', rust_oracle=True),
     ],
@@ -145,7 +156,8 @@ PROPS = {
     srcgen={'SrcValidate': 'SlacProps.C10Source'},
     modules=['SlacProps.C11'],
     streams=[dict(name='chkbool', n=n(60000, 2000000), view='chkbool', oracle='none', laws=['c11']),
-             dict(name='spine:chkbool', n=n(1500, 40000), view='chkbool', oracle='none', laws=['c11'])],
+             dict(name='spine:chkbool', n=n(1500, 40000), view='chkbool', oracle='none', laws=['c11']),
+             dict(name='vchain:chkbool', n=n(16, 80), view='chkbool', oracle='none', laws=['c11'], case_timeout=120.0)],
     rule='chkbool: random well-/ill-formed trees with conditionals in result position, executed under environments that leave about half of the variables undefined; '
          'compared: verdict with error payload, execute result, and the proviso (result-position variables/calls yield Booleans)',
     trusted=[FLOAT_TB],
@@ -170,7 +182,7 @@ PROPS = {
     streams=[
         dict(name='envex', n=n(3, 4), oracle='none', rust_oracle=True),
         dict(name='env', n=n(40000, 1000000), oracle='none', rust_oracle=True),
-        dict(name='eval', n=n(20000, 500000), view='result'),
+        dict(name='eval', n=n(20000, 500000), view='result', laws=['eval_side']),
     ],
     rule='envex: ALL histories of <=3 (quick) / <=4 (thorough) operations from a 19-operation alphabet (3 spellings of 2 names x {add/overwrite/remove variable, add/remove function}, clear), every lookup after every step; '
          'env: random histories up to 200 operations over 20 names incl. non-ASCII; eval: trees with identifiers in random letter case. Falsifier: an independent BTreeMap reference keyed by to_lowercase (harness/src/oracle.rs)',
@@ -196,6 +208,8 @@ PROPS = {
         dict(name='chain:opt', n=n(60, 1000), view='first', oracle='none', laws=['no_crash'], case_timeout=30.0),
         dict(name='chain:eval', n=n(60, 1000), view='first', laws=['no_crash'], case_timeout=30.0),
         dict(name='wide:eval', n=n(16, 160), view='first', laws=['no_crash'], case_timeout=60.0),
+        dict(name='vchain:chkvf', n=n(16, 80), view='first', oracle='none', laws=['no_crash'], case_timeout=120.0),
+        dict(name='vchain:chkbool', n=n(16, 80), view='first', oracle='none', laws=['no_crash'], case_timeout=120.0),
         # JSON written by ANOTHER system (integer tokens at the i64/u64 limits, exponent spellings), deserialised in the overflow-checked build
         dict(name='jsonin', build='checked', n=n(20000, 400000), model=False, oracle='none', laws=['no_crash']),
     ],
